@@ -38,6 +38,7 @@ ops = [{'act': 'new', 'p': 'p2', 's': '-', 'L': ['default'], 'i': 0},
        {'act': 'new', 'p': 'p3', 's': '-', 'L': ['s2', 's3'], 'i': 0},
        {'act': 'extend', 'p': 'p3', 's': '-', 'L': ['s1'], 'i': 0},
        {'act': 'copy', 'p': 'p3', 's': '-', 'L': [], 'i': 0},
+       {'act': 'observe', 'p': 'p3', 's': '-', 'L': [], 'i': 0},
        {'act': 'remove', 'p': 'p3', 's': 's3', 'L': [], 'i': 0},
        {'act': 'pop', 'p': 'p2', 's': '-', 'L': [], 'i': 0}]
 case = {'part': 'phases', 'cid': 'x', 'src': 'random', 'objs': {'p2': 'iface', 'p3': 'gas'}, 'ops': ops, 'flavour': 0}
@@ -61,7 +62,11 @@ expect('phases: new object lists something else', 'Trace_Phases', mut(ev, lambda
 expect('phases: inserted species owned by another phase', 'Trace_Phases', mut(ev, lambda e: e[4].__setitem__('own', [['s1', 'p2']])), 'OwnerAfterInsert')
 expect('phases: copy returns other names', 'Trace_Phases', mut(ev, lambda e: e[5].__setitem__('ret', ['s2'])), 'CopySnapshot')
 expect('phases: editing the copy edits the phase', 'Trace_Phases', mut(ev, lambda e: e[5].__setitem__('after', ['s2', 's3', 's1', 'zz'])), 'CopyDetached')
-expect('phases: a live object disappears', 'Trace_Phases', mut(ev, lambda e: e[6].__setitem__('names', e[6]['names'][1:])), 'LiveSet')
+expect('phases: a live object disappears', 'Trace_Phases', mut(ev, lambda e: e[7].__setitem__('names', e[7]['names'][1:])), 'LiveSet')
+expect('phases: elements keep the removed species\' element', 'Trace_Phases',
+       mut(ev, lambda e: e[7].__setitem__('elems', e[6]['elems'])), 'PhaseElementsAreUnionOfSpecies')
+expect('phases: written elements lack one', 'Trace_Phases', mut(ev, lambda e: e[6].__setitem__('wel', e[6]['wel'][1:])), 'PhaseElementsAreUnionOfSpecies')
+expect('phases: written species differ from the members', 'Trace_Phases', mut(ev, lambda e: e[6].__setitem__('wsp', e[6]['wsp'][1:])), 'WrittenSpeciesAreMembers')
 expect('phases: one recorded call deleted (p2 then differs at the next call)', 'Trace_Phases', ev[:2] + ev[3:], 'Frame')
 
 # ---------------------------------------------------------------- reactor
